@@ -12,6 +12,9 @@
    Verdict: ok | (bad ...). *)
 From Coq Require Import List NArith ZArith Bool String.
 From Verif Require Import common.Sexp vm.Stack.
+From Verif Require c01vm.Run.
+From Verif Require Import c01vm.Syntax c01vm.Code c01vm.VM c01vm.Compile c01vm.Natives c20.AbsVM c20.VMForms.
+From Verif Require c20.Frames c20.EVM gen.GenEvmForms.
 Import ListNotations.
 Open Scope Z_scope.
 
@@ -99,13 +102,255 @@ Fixpoint judge_fp (names : list string) (a b : list Z) : sexp :=
   | _, _, _ => A "undecodable-fp"
   end.
 
+(* ---- vmform / vmfoot: the forms of c20/VMForms.v on the concrete VM model (coq/c01vm) ---------- *)
+(*  (vmform <name> <ast> (<instr>...))            the implementation's instruction list (VerifDumpCode)
+      ok iff  compile (the AST the harness ran) = the implementation's code = compile (the named Coq term
+      the theorem vm_forms_bounded is about), and the certificate of that term is computed again.
+    (vmfoot <name> <ast> <input> (seq (f s c v)... (out val)...) <end>)
+      per polled instruction: len forks, stack depth, scope depth, len values of the implementation;
+      ok iff the c01vm VM (natives: c01vm.Natives.cnat) on compile(ast) goes through exactly the same
+      sequence, emits the same values at the same places, ends the same way, and every tuple is within
+      the certified bound. *)
+Definition form_by_name (e : sexp) : option query :=
+  if atom_is "reduce" e then Some f_reduce else if atom_is "reduce_last" e then Some f_reduce_last
+  else if atom_is "foreach" e then Some f_foreach else if atom_is "foreach3" e then Some f_foreach3
+  else if atom_is "map" e then Some f_map else if atom_is "iter_comma" e then Some f_iter_comma
+  else if atom_is "iter_if" e then Some f_iter_if else if atom_is "iter_elif" e then Some f_iter_elif
+  else if atom_is "label_break" e then Some f_label_break else if atom_is "limit_shape" e then Some f_limit_shape
+  else if atom_is "first_shape" e then Some f_first_shape else if atom_is "isempty_shape" e then Some f_isempty_shape
+  else if atom_is "nested" e then Some f_nested else if atom_is "reduce_nested" e then Some f_reduce_nested
+  else if atom_is "bind" e then Some f_bind else if atom_is "try" e then Some f_try
+  else if atom_is "alt" e then Some f_alt else if atom_is "opt" e then Some f_opt
+  else if atom_is "reduce_if" e then Some f_reduce_if else if atom_is "foreach_select" e then Some f_foreach_select
+  else None.
+
+Definition enc_code (c : list instr) : sexp := SList (map c01vm.Run.enc_instr c).
+Definition natA (n : nat) : sexp := Atom (print_N (N.of_nat n)).
+
+Definition judge_vmform (name ast : sexp) (impl : list sexp) : sexp :=
+  match form_by_name name, c01vm.Run.dec_q ast with
+  | Some qf, Some q =>
+      match compile q, compile qf with
+      | Some c, Some cf =>
+          if negb (c01vm.Run.sexp_eqb (enc_code c) (SList impl)) then SList [A "bad"; A "code"; enc_code c]
+          else if negb (c01vm.Run.sexp_eqb (enc_code c) (enc_code cf)) then SList [A "bad"; A "named-term-differs"; enc_code cf]
+          else match certify cf cert_fuel with
+               | Some _ => A "ok"
+               | None => SList [A "bad"; A "no-certificate"]
+               end
+      | _, _ => A "notinfragment"
+      end
+  | _, _ => A "undecodable"
+  end.
+
+Definition foot_tuple (m : mem) : sexp :=
+  SList [natA (List.length (forks m)); natA (List.length (stk m)); natA (List.length (scopes m)); natA (List.length (vars m))].
+
+(* the model's per-instruction sequence; Brk states are not instruction fetches *)
+Fixpoint vm_foot (code : list instr) (fuel : nat) (s : state) : list sexp * sexp :=
+  match fuel with
+  | O => ([], A "fuel")
+  | S f =>
+      let here := match s with Run _ _ _ m => [foot_tuple m] | Brk _ _ _ _ => [] end in
+      match step cnat code s with
+      | Next s' => let '(l, e) := vm_foot code f s' in (here ++ l, e)
+      | Emit v s' => let '(l, e) := vm_foot code f s' in (here ++ SList [A "out"; c01vm.Run.enc_val v] :: l, e)
+      | Halt None => (here, A "end")
+      | Halt (Some _) => (here, A "err")
+      | Stuck => (here, A "stuck")
+      end
+  end.
+
+Definition tuple_within (C : nat) (e : sexp) : bool :=
+  match e with
+  | SList [Atom a; Atom b; Atom c; Atom d] =>
+      match parse_N a, parse_N b, parse_N c, parse_N d with
+      | Some a, Some b, Some c, Some d => (N.to_nat (a + b + c + d) <=? C)%nat
+      | _, _, _, _ => false
+      end
+  | _ => true      (* (out v) markers *)
+  end.
+
+Definition judge_vmfoot (name ast inp : sexp) (seq : list sexp) (fin : sexp) : sexp :=
+  match form_by_name name, c01vm.Run.dec_q ast, c01vm.Run.dec_val inp with
+  | Some qf, Some q, Some v =>
+      match compile q, cert_of qf with
+      | Some c, Some C =>
+          let '(l, e) := vm_foot c (1000 * 1000) (init v) in
+          if negb (c01vm.Run.sexp_eqb (SList [SList l; e]) (SList [SList seq; fin])) then
+            SList [A "bad"; A "trace"; e; natA (List.length l)]
+          else if forallb (tuple_within C) seq then A "ok"
+          else SList [A "bad"; A "exceeds-certified-bound"; natA C]
+      | _, _ => A "notinfragment"
+      end
+  | _, _, _ => A "undecodable"
+  end.
+
+(* ---- evmtrace: the erased VM (c20/EVM.v) against the implementation, per instruction --------- *)
+(*  (evmtrace <name> <nvars> (code <einstr>...) (obs <item>...))
+      <item> = (<pc> <bt> <forks> <stack index> <limit> <len data> <scopes index> <limit> <len data> <offset> <len values>)
+             | out | err | end
+    one tuple per instruction fetch of the implementation (pc and backtrack from the interpreter's own debug
+    trace, the rest from VerifFootprint at the poll of the same loop iteration); out / err / end = Next
+    returned a value / an error value / (nil,false).
+    ok iff  (1) the code equals the generated constant gen.GenEvmForms.code_<name> the theorem is about,
+            (2) the observation sequence is a PATH of the nondeterministic erased machine from einit
+                (set simulation: the states consistent with the observations so far never become empty),
+            (3) the constant is certified and every observed footprint is within the certified bound. *)
+
+Definition dec_einstr (e : sexp) : option EVM.einstr :=
+  let z (a : sexp) := match a with Atom x => parse_Z x | _ => None end in
+  match e with
+  | Atom _ =>
+      if atom_is "Enop" e then Some EVM.Enop else if atom_is "Epush" e then Some EVM.Epush
+      else if atom_is "Epop" e then Some EVM.Epop else if atom_is "Edup" e then Some EVM.Edup
+      else if atom_is "Econst" e then Some EVM.Econst else if atom_is "Eforktryend" e then Some EVM.Eforktryend
+      else if atom_is "Ebacktrack" e then Some EVM.Ebacktrack else if atom_is "Eindex" e then Some EVM.Eindex
+      else if atom_is "Ecallpc" e then Some EVM.Ecallpc else if atom_is "Eret" e then Some EVM.Eret
+      else if atom_is "Eiter" e then Some EVM.Eiter else if atom_is "Eexpbegin" e then Some EVM.Eexpbegin
+      else if atom_is "Eexpend" e then Some EVM.Eexpend else if atom_is "Eunsupported" e then Some EVM.Eunsupported
+      else None
+  | SList [t; a] =>
+      match z a with
+      | Some a =>
+          if atom_is "Eobject" t then Some (EVM.Eobject a) else if atom_is "Efork" t then Some (EVM.Efork a)
+          else if atom_is "Eforktrybegin" t then Some (EVM.Eforktrybegin a) else if atom_is "Eforkalt" t then Some (EVM.Eforkalt a)
+          else if atom_is "Ejump" t then Some (EVM.Ejump a) else if atom_is "Ejumpifnot" t then Some (EVM.Ejumpifnot a)
+          else if atom_is "Ecallnative" t then Some (EVM.Ecallnative a) else if atom_is "Ecall" t then Some (EVM.Ecall a)
+          else if atom_is "Ecallrec" t then Some (EVM.Ecallrec a) else if atom_is "Epushpc" t then Some (EVM.Epushpc a)
+          else None
+      | None => None
+      end
+  | SList [t; a; b] =>
+      match z a, z b with
+      | Some a, Some b =>
+          if atom_is "Eload" t then Some (EVM.Eload a b) else if atom_is "Estore" t then Some (EVM.Estore a b)
+          else if atom_is "Eappend" t then Some (EVM.Eappend a b) else if atom_is "Eforklabel" t then Some (EVM.Eforklabel a b)
+          else if atom_is "Escope" t then Some (EVM.Escope a b) else None
+      | _, _ => None
+      end
+  | _ => None
+  end.
+
+Fixpoint dec_einstrs (l : list sexp) : option (list EVM.einstr) :=
+  match l with
+  | [] => Some []
+  | e :: r => match dec_einstr e, dec_einstrs r with Some i, Some is => Some (i :: is) | _, _ => None end
+  end.
+
+Definition einstr_eq_dec : forall a b : EVM.einstr, {a = b} + {a <> b}.
+Proof. decide equality; apply Z.eq_dec. Defined.
+Definition code_eqb (a b : list EVM.einstr) : bool := if list_eq_dec einstr_eq_dec a b then true else false.
+
+Fixpoint find_form (name : list N) (l : list (string * list EVM.einstr)) : option (list EVM.einstr) :=
+  match l with
+  | [] => None
+  | (n, c) :: r => if list_N_eqb name (codes n) then Some c else find_form name r
+  end.
+
+Definition obs_matches (o : list Z) (s : EVM.est) : bool :=
+  match o with
+  | [p; b; f; si; sl; sd; ci; cl; cd; off; nv] =>
+      (EVM.pc s =? p) && Bool.eqb (EVM.bt s) (b =? 1) && (EVM.zlen (EVM.forks s) =? f)
+      && (index (EVM.dstk s) =? si) && (limit (EVM.dstk s) =? sl) && (len (data (EVM.dstk s)) =? sd)
+      && (index (EVM.sstk s) =? ci) && (limit (EVM.sstk s) =? cl) && (len (data (EVM.sstk s)) =? cd)
+      && (EVM.offset s =? off) && (EVM.zlen (EVM.values s) =? nv)
+  | _ => false
+  end.
+
+Fixpoint dedup (l : list EVM.est) : list EVM.est :=
+  match l with
+  | [] => []
+  | s :: r => if EVM.ememb s r then dedup r else s :: dedup r
+  end.
+
+Definition lab_is (a b : EVM.elabel) : bool :=
+  match a, b with
+  | EVM.LNext, EVM.LNext | EVM.LEmit, EVM.LEmit | EVM.LErr, EVM.LErr | EVM.LDone, EVM.LDone => true
+  | _, _ => false
+  end.
+Definition succs (code : list EVM.einstr) (lab : EVM.elabel) (cands : list EVM.est) : list EVM.est :=
+  dedup (flat_map (fun s => map snd (filter (fun ls => lab_is (fst ls) lab) (EVM.estep code s))) cands).
+
+(* fresh = the candidates are successors still waiting to be matched with the next tuple *)
+Fixpoint simulate (code : list EVM.einstr) (C : Z) (i : N) (items : list sexp) (fresh : bool) (cands : list EVM.est) : sexp :=
+  match items with
+  | [] => A "ok"
+  | it :: rest =>
+      let fail (what : sexp) := SList [A "bad"; what; SList [A "at"; Atom (print_N i)]] in
+      match it with
+      | SList l =>
+          match atoms_Z l with
+          | Some o =>
+              let next := filter (obs_matches o) (if fresh then cands else succs code EVM.LNext cands) in
+              match next with
+              | [] => fail (A "not-a-path-of-the-erased-machine")
+              | _ => if forallb (fun s => EVM.efp s <=? C) next then simulate code C (N.succ i) rest false next
+                     else fail (A "exceeds-certified-bound")
+              end
+          | None => fail (A "undecodable-item")
+          end
+      | Atom _ =>
+          let lab := if atom_is "out" it then Some EVM.LEmit else if atom_is "err" it then Some EVM.LErr
+                     else if atom_is "end" it then Some EVM.LDone else None in
+          match lab with
+          | Some lab =>
+              if fresh then fail (A "marker-without-instruction") else
+              match succs code lab cands with
+              | [] => fail (A "return-not-possible-in-the-erased-machine")
+              | next => simulate code C (N.succ i) rest true next
+              end
+          | None => fail (A "undecodable-item")
+          end
+      end
+  end.
+
+Definition judge_evmtrace (name nv : sexp) (codeS obs : list sexp) : sexp :=
+  match name, nv, dec_einstrs codeS with
+  | Atom nm, Atom nva, Some code =>
+      match find_form nm GenEvmForms.evm_forms, parse_N nva with
+      | Some gen, Some nvars =>
+          if negb (code_eqb code gen) then SList [A "bad"; A "generated-constant-differs-from-the-implementation-code"]
+          else match EVM.certify gen (N.to_nat nvars) (3 * 1000) with
+               | Some C => simulate gen C 0 obs true [EVM.einit gen (N.to_nat nvars)]
+               | None => SList [A "bad"; A "no-certificate"]
+               end
+      | _, _ => SList [A "bad"; A "unknown-form"]
+      end
+  | _, _, _ => A "undecodable"
+  end.
+
+(* (evmbound <name> <nvars>) -> (bound <C>) | none : the certified bound of a generated constant (for the evidence) *)
+Definition evm_bound (name nv : sexp) : sexp :=
+  match name, nv with
+  | Atom nm, Atom nva =>
+      match find_form nm (GenEvmForms.evm_forms ++ GenEvmForms.evm_unbounded_forms), parse_N nva with
+      | Some gen, Some nvars =>
+          match EVM.certify gen (N.to_nat nvars) (3 * 1000) with
+          | Some C => SList [A "bound"; Atom (print_Z C)]
+          | None => A "none"
+          end
+      | _, _ => A "unknown-form"
+      end
+  | _, _ => A "undecodable"
+  end.
+
 Definition run_sexp (e : sexp) : sexp :=
   match e with
-  | SList [t; k; SList (to :: ops); SList (tb :: obs)] =>
-      if atom_is "stk" t && atom_is "ops" to && atom_is "obs" tb then
-        (* a trailing panic marker has no operation result: pad so that lengths agree *)
-        judge_stk 0 ops obs (new_stack, [])
+  | SList [t; name; nv] => if atom_is "evmbound" t then evm_bound name nv else A "undecodable"
+  | SList [t; name; nv; SList (tc :: codeS); SList (to :: obs)] =>
+      if atom_is "evmtrace" t && atom_is "code" tc && atom_is "obs" to then judge_evmtrace name nv codeS obs
       else A "undecodable"
+  | SList [t; name; ast; SList impl] =>
+      if atom_is "vmform" t then judge_vmform name ast impl else
+      match e with
+      | SList [t; k; SList (to :: ops); SList (tb :: obs)] =>
+          if atom_is "stk" t && atom_is "ops" to && atom_is "obs" tb then judge_stk 0 ops obs (new_stack, [])
+          else A "undecodable"
+      | _ => A "undecodable"
+      end
+  | SList [t; name; ast; inp; SList (ts :: seq); fin] =>
+      if atom_is "vmfoot" t && atom_is "seq" ts then judge_vmfoot name ast inp seq fin else A "undecodable"
   | SList (t :: _ :: _ :: mode :: SList (ta :: a) :: SList (tb :: b) :: _) =>
       if atom_is "fp" t && atom_is "a" ta && atom_is "b" tb then
         if atom_is "pend" mode then A "ok"
